@@ -416,3 +416,33 @@ func H_C12_reentry_vs_writer() {
 	b.SetSuccessThreshold("t", 0)
 	verifReach("C12.reentry-vs-writer.end")
 }
+
+// C14: Event.FormattedAs / Format as a last-writer-wins table under concurrency: two writers of different formats on an
+// event whose table may not exist yet (events not made by a Broker) both leave their entry; a reader sees nothing or the
+// value, never a lost table
+func H_C14_formatted_interleaved() {
+	e := &Event{Type: "t"}
+	if nondetBool() {
+		e.Formatted = map[string][]byte{}
+	}
+	same := nondetBool()
+	ka, kb := "a", "b"
+	if same {
+		kb = "a"
+	}
+	verifInterleave(true)
+	verifGo(func() { e.FormattedAs(ka, []byte("va")) })
+	verifGo(func() { e.FormattedAs(kb, []byte("vb")) })
+	verifGo(func() { e.Format("a") })
+	verifJoin()
+	verifInterleave(false)
+	va, oka := e.Format("a")
+	vb, okb := e.Format(kb)
+	if same {
+		verifAssert(oka && (string(va) == "va" || string(va) == "vb"), "C14.interleaved.last-writer-wins")
+	} else {
+		verifAssert(oka && string(va) == "va", "C14.interleaved.first-writers-entry-kept")
+		verifAssert(okb && string(vb) == "vb", "C14.interleaved.second-writers-entry-kept")
+	}
+	verifReach("C14.interleaved.end")
+}
